@@ -227,3 +227,155 @@ def rule_nomatch(ctx, prop: str) -> RuleResult:
         res.add(Finding("NOMATCH", PM, mp.lineno, "match_pattern", "#n-regex", "the '#<num>' suffix is no longer split off the pattern string"))
     res.floor = 5
     return res
+
+
+def rule_countgroup(ctx, prop: str) -> RuleResult:
+    """The `name [name] #n` shorthands of the scheduling API are taken apart with module-level
+    regular expressions.  Wherever a captured group is re-inserted after a literal `#` (to
+    build the pattern `... #n`) or converted with `int(...)`, that group must be the one
+    holding only the digits — decided by parsing the regular expression (`re._parser`) and
+    looking at what each numbered group can contain."""
+    import re as _re
+
+    try:
+        import re._parser as sre_parse  # py >= 3.11
+    except Exception:  # pragma: no cover
+        import sre_parse
+
+    ix = ctx.ix
+    res = RuleResult("COUNTGROUP")
+    AS_ = "src/exo/API_scheduling.py"
+    m = ix.module(AS_)
+    regexes: Dict[str, str] = {}
+    for name, node in m.assigns.items():
+        if isinstance(node, ast.Constant) and isinstance(node.value, str) and name.endswith("_re"):
+            regexes[name] = node.value
+
+    def group_literals(pattern: str) -> Dict[int, Set[str]]:
+        """group number -> set of literal characters / categories it can contain"""
+        out: Dict[int, Set[str]] = {}
+
+        def walk(items, enclosing: List[int]):
+            for op, av in items:
+                opn = str(op)
+                if opn == "SUBPATTERN":
+                    g, _, _, sub = av
+                    walk(sub, enclosing + ([g] if g else []))
+                elif opn == "LITERAL":
+                    for g in enclosing:
+                        out.setdefault(g, set()).add(chr(av))
+                elif opn in ("MAX_REPEAT", "MIN_REPEAT"):
+                    walk(av[2], enclosing)
+                elif opn == "BRANCH":
+                    for alt in av[1]:
+                        walk(alt, enclosing)
+                elif opn == "IN":
+                    for g in enclosing:
+                        out.setdefault(g, set()).add("<class>")
+                else:
+                    for g in enclosing:
+                        out.setdefault(g, set())
+
+        walk(sre_parse.parse(pattern), [])
+        return out
+
+    n_uses = 0
+    for f in m.funcs.values():
+        if not isinstance(f.node, ast.FunctionDef):
+            continue
+        # match variables:  v = re.search(<regex const>, ...)   /  (v := re.search(...))
+        mvars: Dict[str, str] = {}
+        for n in f.body_nodes():
+            call, tgt = None, None
+            if isinstance(n, ast.Assign) and isinstance(n.value, ast.Call) and len(n.targets) == 1 and isinstance(n.targets[0], ast.Name):
+                call, tgt = n.value, n.targets[0].id
+            if isinstance(n, ast.NamedExpr) and isinstance(n.value, ast.Call) and isinstance(n.target, ast.Name):
+                call, tgt = n.value, n.target.id
+            if call is not None and dotted(call.func) in ("re.search", "re.match", "re.fullmatch") and call.args and isinstance(call.args[0], ast.Name) and call.args[0].id in regexes:
+                mvars[tgt] = call.args[0].id
+        if not mvars:
+            continue
+        for n in f.body_nodes():
+            uses: List[Tuple[ast.Subscript, str]] = []
+            if isinstance(n, ast.JoinedStr):
+                prev = ""
+                for v in n.values:
+                    if isinstance(v, ast.Constant):
+                        prev = str(v.value)
+                    elif isinstance(v, ast.FormattedValue):
+                        if prev.rstrip().endswith("#") and isinstance(v.value, ast.Subscript):
+                            uses.append((v.value, "re-inserted after a literal `#`"))
+                        prev = ""
+            if isinstance(n, ast.Call) and isinstance(n.func, ast.Name) and n.func.id == "int" and n.args and isinstance(n.args[0], ast.Subscript):
+                uses.append((n.args[0], "converted with int()"))
+            for sub, how in uses:
+                if not (isinstance(sub.value, ast.Name) and sub.value.id in mvars and isinstance(sub.slice, ast.Constant) and isinstance(sub.slice.value, int)):
+                    continue
+                n_uses += 1
+                res.instances += 1
+                res.nontrivial += 1
+                res.analysed.append(f"{AS_}:{f.qualname}")
+                rx = regexes[mvars[sub.value.id]]
+                lits = group_literals(rx).get(sub.slice.value)
+                ok = lits is not None and "#" not in lits
+                res.ob(ok)
+                res.sample(f"{f.qualname}: group {sub.slice.value} of {mvars[sub.value.id]} ({how}) holds only the count: {ok}")
+                if not ok:
+                    res.add(
+                        Finding("COUNTGROUP", AS_, sub.lineno, f.qualname, f"{mvars[sub.value.id]}[{sub.slice.value}]",
+                                f"{f.qualname}: group {sub.slice.value} of `{rx}` {'does not exist' if lits is None else 'contains the `#` itself'}, and is {how}: the pattern becomes `... ##n`, "
+                                f"the occurrence selector is lost (Python reads the rest as a comment) and `'i j #1'` designates the FIRST matching loop nest")
+                    )
+    if n_uses < 2:
+        raise AnalysisError(f"COUNTGROUP: expected >= 2 uses of a count group in API_scheduling.py, found {n_uses}")
+    res.floor = 2
+    return res
+
+
+def rule_falsyzero(ctx, prop: str) -> RuleResult:
+    """An ADT field declared `int` can legitimately be 0 (dimension 0 of `stride(A, 0)`); an
+    optional one (`int?`) uses None for "absent".  A truthiness test on such a field
+    (`not x.dim`, `bool(x.dim)`, `x.dim or ...`, `if x.dim`) conflates 0 with absent: the
+    pattern `stride(A, 0)` then matches every stride of A."""
+    ix, adts = ctx.ix, ctx.adts
+    res = RuleResult("FALSYZERO")
+    int_fields: Set[str] = set()
+    for mod in adts.mods.values():
+        for c in mod.ctors.values():
+            for fld in c.fields:
+                if fld.type == "int":
+                    int_fields.add(fld.name)
+    int_fields &= {"dim"}  # confirmed instance; `val` of Const is never tested for truth as an int field
+    if not int_fields:
+        raise AnalysisError("FALSYZERO: no `int dim` field found in the ADTs")
+    n_reads = 0
+    for f in ix.all_funcs():
+        if not f.file.startswith(("src/exo/frontend/pattern_match.py", "src/exo/rewrite/", "src/exo/core/", "src/exo/backend/", "src/exo/API")):
+            continue
+        for n in f.body_nodes():
+            if not (isinstance(n, ast.Attribute) and n.attr in int_fields):
+                continue
+            n_reads += 1
+            p = parent(n)
+            truth = False
+            if isinstance(p, ast.UnaryOp) and isinstance(p.op, ast.Not):
+                truth = True
+            if isinstance(p, ast.Call) and isinstance(p.func, ast.Name) and p.func.id == "bool":
+                truth = True
+            if isinstance(p, ast.BoolOp) and any(v is n for v in p.values):
+                truth = True
+            if isinstance(p, (ast.If, ast.While, ast.IfExp)) and p.test is n:
+                truth = True
+            res.instances += 1
+            res.ob(not truth)
+            if truth:
+                res.nontrivial += 1
+                res.add(
+                    Finding("FALSYZERO", f.file, n.lineno, f.qualname, ast.unparse(p)[:50],
+                            f"`{ast.unparse(p)[:60]}` tests the integer field `.{n.attr}` for truth: dimension 0 counts as absent, so the pattern `stride(A, 0)` "
+                            f"matches `stride(A, 1)` as well (use `is None` for the hole)")
+                )
+    if n_reads < 5:
+        raise AnalysisError(f"FALSYZERO: expected >= 5 reads of an int dimension field, found {n_reads}")
+    res.floor = 5
+    return res
